@@ -49,6 +49,11 @@ Ltac wf_facts Hok :=
              | _ : wf_rel c rows |- _ => fail
              | _ => let W := fresh "W" in pose proof (Hok v) as W; rewrite E in W; cbn [wf_sem] in W
              end
+         | E : ?env ?v = MList ?l |- _ =>
+             lazymatch goal with
+             | _ : wf_sem (MList l) |- _ => fail
+             | _ => let W := fresh "W" in pose proof (Hok v) as W; rewrite E in W
+             end
          | E : ?env ?v = MExpr ?s ?f |- _ =>
              lazymatch goal with
              | _ : reads_only s f |- _ => fail
@@ -110,9 +115,20 @@ Ltac pfinish Hok :=
   repeat match goal with
          | H : MExpr _ _ = MExpr _ _ |- _ => inversion H; subst; clear H
          | H : MRel _ _ = MRel _ _ |- _ => inversion H; subst; clear H
+         | H : Some _ = Some _ |- _ => inversion H; subst; clear H
          end;
   wf_facts Hok; scope_facts;
-  cbn [sem_equiv]; split; [first [reflexivity|symmetry; apply app_assoc|apply app_assoc]|apply perm_eq; close_rows].
+  repeat match goal with
+         | W : wf_sem (MList ?es), E : exprs_of ?es = Some ?fs |- _ =>
+             lazymatch goal with
+             | _ : exprs_ok fs |- _ => fail
+             | _ => pose proof (exprs_of_ok es fs W E)
+             end
+         end;
+  cbn [sem_equiv]; split;
+  [ first [reflexivity|symmetry; apply app_assoc|apply app_assoc]
+  | first [ apply perm_eq; close_rows
+          | solve [eapply inner_join_swap; [eassumption|eassumption|eassumption|eassumption|eassumption]] ] ].
 Ltac prule_sound :=
   match goal with |- psound ?r => unfold r end;
   let env := fresh "env" in let Hok := fresh "Hok" in let Hc := fresh "Hc" in
